@@ -51,7 +51,8 @@ impl EventEncoder for LogsEventEncoder {
                     },
                 ))),
                 attributes: &PropsLogRecordAttributes::<E::TraceId, E::SpanId, _>::new(evt.props()),
-            }),
+            })
+            .ok()?,
         })
     }
 }
@@ -65,12 +66,12 @@ impl RequestEncoder for LogsRequestEncoder {
         resource: Option<&EncodedPayload>,
         items: &EncodedScopeItems,
     ) -> Result<EncodedPayload, Error> {
-        Ok(E::encode(ExportLogsServiceRequest {
+        E::encode(ExportLogsServiceRequest {
             resource_logs: &[ResourceLogs {
                 resource: &resource,
                 scope_logs: &EncodedScopeLogs(items),
             }],
-        }))
+        })
     }
 }
 
